@@ -19,8 +19,14 @@ structure Unicode.WF (U : Unicode) : Prop where
     U.isSpace x = false ∧ isAsciiLower x = false ∧ U.upperMap.lookup x = none
   /-- The ASCII space is whitespace. -/
   space : U.isSpace 32 = true
-  /-- ASCII digits are `\d`, ASCII letters are not. -/
-  digits : U.digitZeros.find? (fun z => z ≤ 48 && 48 ≤ z + 9) = some 48
+  /-- The newline is whitespace (so a compact form never ends in the newline Python's `$`
+      tolerates). -/
+  newline : U.isSpace 10 = true
+  /-- ASCII digits are `\d` with their own value, ASCII letters are not `\d`. -/
+  digits : ∀ c ∈ List.range 10,
+    U.digitZeros.find? (fun z => z ≤ c + 48 && c + 48 ≤ z + 9) = some 48
+  /-- `int()` accepts at least 100 digits. -/
+  maxInt : 100 ≤ U.maxIntDigits
   noLetterDigit : ∀ c ∈ List.range 26, U.isDigit (c + 65) = false
   /-- No whitespace among ASCII letters and digits. -/
   alnumNotSpace : ∀ c ∈ List.range 75, U.isSpace (c + 48) = false
@@ -37,8 +43,10 @@ def Unicode.wfb (U : Unicode) (km sm : Nat) : Bool :=
   (List.range 10).all (fun c => !Nat.testBit km (c + 48)) &&
   U.upperMap.all (fun p => p.2.all (fun x =>
     !Nat.testBit sm x && !isAsciiLower x && !Nat.testBit km x)) &&
-  U.isSpace 32 &&
-  (U.digitZeros.find? (fun z => z ≤ 48 && 48 ≤ z + 9) == some 48) &&
+  U.isSpace 32 && U.isSpace 10 &&
+  (List.range 10).all (fun c =>
+    U.digitZeros.find? (fun z => z ≤ c + 48 && c + 48 ≤ z + 9) == some 48) &&
+  decide (100 ≤ U.maxIntDigits) &&
   (List.range 26).all (fun c => U.isDigit (c + 65) == false) &&
   (List.range 75).all (fun c => !Nat.testBit sm (c + 48))
 
@@ -72,13 +80,13 @@ theorem isSpace_false_of_mask {U : Unicode} {sm x : Nat}
 
 theorem Unicode.wf_of_wfb {U : Unicode} {km sm : Nat} (h : U.wfb km sm = true) : U.WF := by
   simp only [Unicode.wfb, Bool.and_eq_true, List.all_eq_true, beq_iff_eq, Bool.not_eq_true'] at h
-  obtain ⟨⟨⟨⟨⟨⟨⟨⟨⟨hk, hs⟩, h1⟩, h2⟩, h3⟩, h4⟩, h5⟩, h6⟩, h7⟩, h8⟩ := h
+  obtain ⟨⟨⟨⟨⟨⟨⟨⟨⟨⟨⟨hk, hs⟩, h1⟩, h2⟩, h3⟩, h4⟩, h5⟩, h5'⟩, h6⟩, h6'⟩, h7⟩, h8⟩ := h
   exact ⟨h1, fun c hc => lookup_none_of_mask hk (h2 c hc),
     fun c hc => lookup_none_of_mask hk (h3 c hc),
     fun p hp x hx => by
       have := h4 p hp x hx
       exact ⟨isSpace_false_of_mask hs this.1.1, this.1.2, lookup_none_of_mask hk this.2⟩,
-    h5, h6, h7, fun c hc => isSpace_false_of_mask hs (h8 c hc)⟩
+    h5, h5', h6, by simpa using h6', h7, fun c hc => isSpace_false_of_mask hs (h8 c hc)⟩
 
 variable {U : Unicode}
 
